@@ -225,6 +225,10 @@ def run(ctx):
     for cls in (H1, HN):
         for name in ("fill", "fill_n"):
             _guarded_missed(ctx, cls.name, cls.methods[name])
+    # the missed store a fill writes is the histogram's own: a copy (an emptied template filled later, the temporary of
+    # an operator) never shares it with its source (shared with C12.b)
+    from rules import c12
+    c12.check_copy_contents(ctx, "C03.b", m)
 
     # ---- C03.c one convention -----------------------------------------------------------
     ctx.rule("C03.c", "find_bin derives the same interval convention as the construction kernel "
